@@ -76,6 +76,13 @@ func repl(rs []rune, nul bool) string {
 	return b.String()
 }
 
+func htmlNewlinesFor(f *family, s string) string {
+	if f == famHTMLText || f == famAttrQ {
+		return htmlNewlines.Replace(s)
+	}
+	return s
+}
+
 // htmlNewlines is the newline normalisation of the HTML input stream (WHATWG
 // "preprocessing the input stream"): a raw CR LF or CR reaches the tokenizer
 // as LF. It happens before, and is not part of, character-reference decoding.
@@ -454,6 +461,14 @@ func (c *context) judge(s string, runErr error, d decoded) (problem, detail stri
 		return "undecodable(" + msg + ")", "decoder: " + d.err.Error()
 	}
 	if d.val != want {
+		// The documented exception "a byte that is not UTF-8 becomes U+FFFD" does
+		// not say how many U+FFFD an invalid sequence of several bytes becomes:
+		// one per byte (Go, encoding/json, and the renderer when it replaces the
+		// bytes itself) or one per maximal subpart (a WHATWG decoder reading raw
+		// bytes). Both are the exception; everything else must be exact.
+		if !utf8.ValidString(s) && c.fam != famPath && c.fam != famQuery && d.val == repl(goUTF8(htmlNewlinesFor(c.fam, s)), c.fam != famJS && c.fam != famJSON) {
+			return "", ""
+		}
 		return "decoded-differs", fmt.Sprintf("decoded  %+q\nexpected %+q", d.val, want)
 	}
 	return "", ""
@@ -769,12 +784,15 @@ func main() {
 	kit.Main(&kit.Check{
 		ID:    "C07",
 		Level: "model_checking",
-		Rule:  "every string of length <= 3 over a 30-character alphabet (25 escape-relevant characters incl. NUL, both quotes, < > & \\ / LF CR TAB FF space = ` % + ? # ; U+2028 U+2029 é U+FFFD and the invalid byte 0xFF, plus a c f 0 g), every special character followed by and preceded by every byte 0..255, and in the thorough tier every string of length 4 over a 21-character reduced alphabet and all 65536 byte pairs — each in 19 contexts (HTML text; \"/'/unquoted attribute; JS string \"/' in <script> and .js; JSON string in .json and <script type=application/ld+json>; CSS string \"/' in <style> and .css; URL path \"/unquoted; URL query \"/'/unquoted). The template of a context is built once, the string is a global variable. Non-trivial = the escaper changed the text or a documented replacement applies. Indices enumerate distinct (context, string) pairs within a space",
+		Rule:  "every string of length <= 3 over a 30-character alphabet (25 escape-relevant characters incl. NUL, both quotes, < > & \\ / LF CR TAB FF space = ` % + ? # ; U+2028 U+2029 é U+FFFD and the invalid byte 0xFF, plus a c f 0 g), every special character followed by and preceded by every byte 0..255, and in the thorough tier every string of length 4 over a 21-character reduced alphabet and all 65536 byte pairs — each in 19 contexts (HTML text; \"/'/unquoted attribute; JS string \"/' in <script> and .js; JSON string in .json and <script type=application/ld+json>; CSS string \"/' in <style> and .css; URL path \"/unquoted; URL query \"/'/unquoted). The template of a context is built once, the string is a global variable. Round 2: (a) 656 plain strings that look like character references or like the escapes of another context (AT&amp;T, &lt;, &#65;, &#x41;, &copy 2024, &amp;amp;, &, &;, &#;, %26amp;, backslash-u003c, … each alone and between a/&/; and b/;/&) in all 19 contexts; (b) URL attributes rendered as a sequence of parts: every sequence of 2 and 3 parts (quick: 4 parts over 4 values and 3 literals; thorough: 4 parts over everything) over 13 shown values (plain, contains ?, ends with ?, contains &, +, %, is a percent-escape, =, #, space, starts with ?, starts with &, R&D+x) and 7 literals (?, &, ?x=, &x=, /, #, x) in href (quoted, unquoted), src and action; (c) srcset: a candidate of 1-3 parts over 10 values (plain, with ?, comma, comma+space, space, & and +, leading and trailing comma, %, ? and comma) and 4 literals (/i.png, ?w=, ?, &x=), with and without a 2x / 100w descriptor, alone, first, second and between literal candidates whose URL has a query. Non-trivial = the escaper changed the text or a documented replacement applies (sequences: at least one shown value). Indices enumerate distinct (context, string) pairs within a space",
 		Assumptions: []string{
 			"a raw CR (or CR LF) in HTML text and quoted attribute values reaches the tokenizer as LF (WHATWG input-stream preprocessing, which is not character-reference decoding): the expected value is newline-normalised there; unquoted attributes, where CR is escaped as &#13;, must give back CR exactly",
 			"documented exceptions only: NUL → U+FFFD in HTML (text, attributes) and CSS (css-syntax-3 §3.3, §4.3.7); a byte that is not UTF-8 → U+FFFD in HTML, CSS, JS and JSON (the consumer decodes the resource as UTF-8); URL query/path values must give back the exact bytes",
 			"URL path context is not in the property statement's list; it is checked with the exclusion that an input containing % + two hex digits is skipped (pathEscape passes existing percent-escapes through by design)",
 			"decoders: golang.org/x/net/html tokenizer (text, attribute values, raw text of script/style, incl. CR→LF input-stream normalisation), /usr/bin/node v20 evaluating the literal as exactly one expression, encoding/json, net/url PathUnescape/QueryUnescape, and this file's css-syntax-3 §4.3.5/§4.3.7 string-token consumer",
+			"URL sequences: the part of the URL that each show or literal contributed is found by rendering the template cut after every part (the rendering of k+1 parts must extend the rendering of k parts; adjacent literals are one text). A value shown before the first ? or in the fragment must give itself back by percent-decoding (an existing %HH is passed through by design and not judged), a value shown after the first ? by query-decoding (+ is a space) and must not contain a raw & or #; a literal must be there unchanged, or, after a ?, with its leading ? turned into & (or dropped when a ? or & is already there), or with an & inserted before it after a shown value that has a query; the HTML tokenizer must see one attribute whose value is the rendered URL. srcset: the standard's 'parse a srcset attribute' must find exactly the candidates the template wrote, each URL being what its parts rendered",
+			"a show directly after a shown value that has a query is path-escaped by the renderer (the value is taken as a further piece of URL): under the rule above a value with & + # or %HH there does not decode back; reported under one key for the coordinator to judge",
+			"reported by a reviewer and NOT duplicated here: {% raw %} inside a typed macro changes the lexer context (HTML escaping in a JS string) is C06's key; a raw CR in HTML text is the documented newline normalisation above",
 			"<script type=application/json> is not a JSON context for the lexer (only application/ld+json); not explored",
 			"strings longer than the bound are not explored",
 		},
